@@ -29,6 +29,8 @@ PROPS = {
         'level': 'proof',
         'units': [
             {'engine': 'verus', 'name': 'batcher', 'tier': 'quick', 'role': 'Batcher::{enqueue,flush,end}, NetworkMessage::{new_single,new_batch,sender}: view equation all = sent ++ pending'},
+            {'engine': 'verus', 'name': 'framing', 'tier': 'quick', 'role': 'remote_send/remote_recv: frame = header ++ body; recv returns the sent (endpoint, message) and consumes exactly one frame'},
+            {'engine': 'verus', 'name': 'start_next', 'tier': 'quick', 'exclude_obligations': ['start.progress_on_replica_end'], 'role': 'receiving side: batches are iterated completely and in order (NetworkMessage::into_iter, NetworkDataIterator::next, Start::next stream equation)'},
         ],
         'explanation': 'Verus proof (unbounded buffer length / batch size, every batch mode, every timing) that the real Batcher hands the link '
                        'exactly the enqueued sequence: enqueue appends to the abstract view, flush/end send the whole pending tail as one batch '
